@@ -83,12 +83,13 @@ func (p *tlsConfigPool) LoadTLSConfig(config TLSConfig) (*tls.Config, error) {
 	encConfig := encodeConfig(config)
 	id := encConfig.hash()
 
+	// Hold the lock until the new config is in the pool: two first loads of the same settings in
+	// parallel must not build two configs, of which only the pooled one would follow CA reloads.
 	p.mu.Lock()
+	defer p.mu.Unlock()
 	if tlsConfig, ok := p.configs[id]; ok {
-		p.mu.Unlock()
 		return tlsConfig, nil
 	}
-	p.mu.Unlock()
 
 	log := p.log.With("id", id)
 	log.Info("loading new TLS config", "config", encConfig.JSON())
@@ -134,9 +135,7 @@ func (p *tlsConfigPool) LoadTLSConfig(config TLSConfig) (*tls.Config, error) {
 	}
 
 	// Save the TLS config to the pool
-	p.mu.Lock()
 	p.configs[id] = tlsConfig
-	p.mu.Unlock()
 	return tlsConfig, nil
 }
 
